@@ -375,3 +375,106 @@ Proof.
   - intros s v np here i k Hst Hc Hk. unfold step_impl, step. rewrite Hst, Hc. unfold step_ret. rewrite Hk.
     cbn. repeat split; reflexivity.
 Qed.
+
+(** ---------------------------------------------------------------- the dynamic environment before/after thunks run in *)
+Definition thunk_of (h : heap) (w : wev) : thunk :=
+  match w with WIn p => pin (hget h p) | WOut p => pout (hget h p) end.
+
+(** the parameter alist each thunk of a script is run with, when the script starts with [pa] *)
+Fixpoint wevs_envs (h : heap) (ws : list wev) (pa : alist) : list (wev * alist) :=
+  match ws with
+  | [] => []
+  | w :: r => (w, pa) :: wevs_envs h r (fst (run_actions (thunk_of h w) pa []))
+  end.
+
+Lemma run_actions_fst : forall t pa o o', fst (run_actions t pa o) = fst (run_actions t pa o').
+Proof. induction t as [|[k v|a|p] t IH]; intros; cbn; auto. Qed.
+
+Lemma run_wevs_fst : forall h ws pa o o', fst (run_wevs h ws pa o) = fst (run_wevs h ws pa o').
+Proof.
+  induction ws as [|w ws IH]; intros; cbn; auto.
+  destruct w; cbn; rewrite (run_actions_fst _ pa o o'); apply IH.
+Qed.
+
+(** [wevs_envs] really is what the machine's [run_wevs] does: the trace it produces is the one obtained by running
+    every thunk with the alist paired with it *)
+Lemma run_wevs_uses_envs : forall h ws pa o,
+  snd (run_wevs h ws pa o) =
+  fold_left (fun o' we => snd (run_actions (thunk_of h (fst we)) (snd we) o')) (wevs_envs h ws pa) o.
+Proof.
+  induction ws as [|w ws IH]; intros pa o; [reflexivity|].
+  cbn [wevs_envs fold_left fst snd].
+  destruct w; cbn [run_wevs thunk_of]; rewrite IH;
+    rewrite (run_actions_fst _ pa o []); reflexivity.
+Qed.
+
+Lemma wevs_envs_app : forall h a b pa,
+  wevs_envs h (a ++ b) pa = wevs_envs h a pa ++ wevs_envs h b (fst (run_wevs h a pa [])).
+Proof.
+  induction a as [|w a IH]; intros b pa; [reflexivity|].
+  cbn [app wevs_envs]. rewrite IH. f_equal. f_equal.
+  destruct w; cbn [run_wevs thunk_of];
+    rewrite (run_wevs_fst h a _ (snd (run_actions _ pa [])) []); reflexivity.
+Qed.
+
+Lemma out_thunk_params : forall h p o, heap_ok h -> 0 < p -> p < length h ->
+  fst (run_actions (pout (hget h p)) (point_params h p) o) = point_params h (parent h p).
+Proof.
+  intros h p o Hok Hp Hl. pose proof Hok as (_ & _ & _ & Hth).
+  destruct (Hth p Hp Hl) as [[Hi Ho]|(new & Hi & ->)]; [|reflexivity].
+  rewrite silent_run by assumption.
+  rewrite (point_params_step h p Hok Hp Hl), silent_head by assumption. reflexivity.
+Qed.
+
+(** R7RS: "the before and after thunks are called in the same dynamic environment as the call to dynamic-wind".
+    Along the wind script between ANY two points of a machine heap, the before thunk of point p runs with the parameters
+    in force at p's parent (where the dynamic-wind was called), the after thunk with the parameters in force at p —
+    which for a user dynamic-wind (silent thunks) are again those of the parent *)
+Theorem thunks_run_in_call_environment_lemma : forall h, heap_ok h -> forall here target,
+  here < length h -> target < length h ->
+  Forall (fun we => snd we = match fst we with
+                             | WIn p => point_params h (parent h p)
+                             | WOut p => point_params h p
+                             end)
+         (wevs_envs h (wind_script h here target) (point_params h here))
+  /\ (forall p, 0 < p -> p < length h -> silent (pin (hget h p)) -> point_params h p = point_params h (parent h p)).
+Proof.
+  intros h Hok. pose proof Hok as (Hwf & Hl & H0 & Hth).
+  assert (Hgen : forall n here target, depth h here + depth h target <= n -> here < length h -> target < length h ->
+     Forall (fun we => snd we = match fst we with WIn p => point_params h (parent h p) | WOut p => point_params h p end)
+            (wevs_envs h (wind_script h here target) (point_params h here))).
+  { induction n as [|n IH]; intros here target Hn Hh Ht.
+    - assert (here = 0) by (apply (depth_zero_root h); auto; lia).
+      assert (target = 0) by (apply (depth_zero_root h); auto; lia). subst.
+      rewrite wind_script_same. constructor.
+    - destruct (Nat.eq_dec here target) as [->|Hne]; [rewrite wind_script_same; constructor|].
+      destruct (Nat.lt_ge_cases (depth h here) (depth h target)) as [L|L].
+      + assert (Hpos : 0 < target).
+        { destruct target; [|lia]. destruct Hwf as [Hd0 _]. rewrite Hd0 in L. lia. }
+        pose proof Hwf as [_ Hw]. destruct (Hw target Hpos Ht) as [Hpar Hdt].
+        rewrite wind_script_in by auto. rewrite wevs_envs_app. apply Forall_app. split.
+        * apply IH; auto; lia.
+        * cbn [wevs_envs]. constructor; [|constructor]. cbn [fst snd].
+          eapply script_params; eauto; lia.
+      + destruct (wind_script_out h here target Hwf Hh Ht Hne L) as [Hpos ->].
+        pose proof Hwf as [_ Hw]. destruct (Hw here Hpos Hh) as [Hpar Hdh].
+        cbn [wevs_envs thunk_of]. constructor; [reflexivity|].
+        rewrite out_thunk_params by auto. apply IH; auto; lia. }
+  intros here target Hh Ht. split.
+  - eapply Hgen; eauto.
+  - intros p Hp Hpl Hs. rewrite (point_params_step h p Hok Hp Hpl), silent_head by assumption. reflexivity.
+Qed.
+
+Theorem thunks_run_in_call_environment_reachable : forall s here target, reachable s ->
+  here < length (hp s) -> target < length (hp s) ->
+  Forall (fun we => snd we = match fst we with
+                             | WIn p => point_params (hp s) (parent (hp s) p)
+                             | WOut p => point_params (hp s) p
+                             end)
+         (wevs_envs (hp s) (wind_script (hp s) here target) (point_params (hp s) here))
+  /\ (forall p, 0 < p -> p < length (hp s) -> silent (pin (hget (hp s) p)) ->
+        point_params (hp s) p = point_params (hp s) (parent (hp s) p)).
+Proof.
+  intros s here target Hr Hh Ht. destruct (reachable_inv s Hr) as (Hok & _).
+  apply thunks_run_in_call_environment_lemma; auto.
+Qed.
